@@ -46,8 +46,12 @@ macro_rules! zeroize_if_possible {
     };
 }
 
-/// raw bytes of a value (padding included), read volatile
+/// raw bytes of a value (padding included), read volatile; empty under Miri, where reading
+/// padding is itself undefined behaviour (the field-wise checks remain)
 fn raw_bytes<T>(v: *const T) -> Vec<u8> {
+    if crate::common::miri_mode() {
+        return Vec::new();
+    }
     let n = std::mem::size_of::<T>();
     let p = v as *const u8;
     (0..n).map(|i| unsafe { std::ptr::read_volatile(p.add(i)) }).collect()
@@ -126,7 +130,8 @@ macro_rules! check_type {
         {
             let mut v = $make;
             // vacuity guard: the scan must find the secrets while the value is alive
-            if find_window(&raw_bytes(&v as *const _), $secrets).is_none() {
+            if crate::common::miri_mode() {
+            } else if find_window(&raw_bytes(&v as *const _), $secrets).is_none() {
                 $obs.r.inconclusive(&format!("secret scan does not find the secrets in a live {} value", $obs.ty));
             } else {
                 $obs.r.count("live_values_with_visible_secrets", 1);
@@ -144,6 +149,23 @@ macro_rules! check_type {
             unsafe { std::ptr::drop_in_place(p) };
             let raw = raw_bytes(p as *const _);
             $obs.after("drop", true, &raw, $secrets, None);
+        }
+        // (c) heap drop: the value lives in a Box; its block is photographed by the allocator at
+        // the moment it is released (see spy.rs: to the optimiser this is an ordinary drop +
+        // free(), so a wipe made of plain stores is dead code, as in a user's program)
+        if crate::spy::available() && !crate::common::miri_mode() {
+            let b = Box::new($make);
+            let size = std::mem::size_of_val(&*b);
+            let live = raw_bytes(&*b as *const _);
+            std::hint::black_box(&b);
+            crate::spy::start(size);
+            drop(b);
+            let (blocks, freed) = crate::spy::stop();
+            if blocks == 0 || freed.len() < size || find_window(&live, $secrets).is_none() {
+                $obs.r.inconclusive(&format!("heap-drop monitor did not see the block of a {} value being released", $obs.ty));
+            } else {
+                $obs.after("heap-drop", true, &freed, $secrets, None);
+            }
         }
     }};
 }
@@ -263,7 +285,20 @@ fn exhaust(alg: Alg, lv: &[Level], entry: SignEntry, w: &mut Worker, ctx: &Ctx) 
 
 pub fn run(ctx: &Ctx) -> Report {
     let mut tasks = Vec::new();
+    if ctx.miri {
+        // Miri stage: zeroize / drop of all five types for a few (hash, W) under the interpreter
+        // (zeroize's volatile writes, ArrayVecZeroize), one last-leaf signature; this shard's share
+        let combos = [(Alg::Sha256_128, 8u32), (Alg::Sha256_128, 1), (Alg::Shake256_192, 4), (Alg::Sha256_256, 1), (Alg::Sha256_192, 2), (Alg::Shake256_128, 1), (Alg::Shake256_256, 8), (Alg::Sha256_256, 4)];
+        for (i, (alg, wv)) in combos.iter().enumerate() {
+            if ctx.mine(i) && (i < 4 || !ctx.quick()) {
+                tasks.push(Task::Types(*alg, *wv));
+            }
+        }
+    }
     for alg in model::ALL_ALGS {
+        if ctx.miri {
+            break;
+        }
         for wv in [1u32, 2, 4, 8] {
             tasks.push(Task::Types(alg, wv));
         }
@@ -278,7 +313,7 @@ pub fn run(ctx: &Ctx) -> Report {
         }
     }
     let seed = ctx.seed;
-    let reps = ctx.size(3, 25);
+    let reps = if ctx.miri { 1 } else { ctx.size(3, 25) };
     let mut rep = par_run(ctx, tasks, |t, w| match t {
         Task::Types(alg, wv) => {
             for rep in 0..reps {
@@ -292,10 +327,20 @@ pub fn run(ctx: &Ctx) -> Report {
         }
         Task::Exhaust(alg, lv, entry) => exhaust(alg, &lv, entry, w, ctx),
     });
-    rep.rule = "per (type, hash, W): a value populated by the real derivation code (random seeds without zero bytes) is (a) zeroized and (b) dropped in place inside a MaybeUninit slot; afterwards every secret field must read zero and no 8-byte window of the snapshotted secrets (seed bytes; all p chain values of an LM-OTS key) may occur anywhere in the raw memory of the value (volatile byte reads, padding included); (c) keys are exhausted through sign / try_sign / try_sign_with_aux and the key bytes held after the last signature are scanned for seed windows; \
-                distinct_nontrivial = distinct (type, hash, W, mode in {zeroize, drop, exhaust})"
+    rep.rule = "per (type, hash, W): a value populated by the real derivation code (random seeds without zero bytes) is (a) zeroized and (b) dropped in place inside a MaybeUninit slot; afterwards every secret field must read zero and no 8-byte window of the snapshotted secrets (seed bytes; all p chain values of an LM-OTS key) may occur anywhere in the raw memory of the value (volatile byte reads, padding included); (b') the value is boxed and the box dropped normally while an interposed libc free() photographs the block at the moment it is released (so the optimiser is free to treat the wipe as it would in a user's program): same scan of the photographed bytes; (c) keys are exhausted through sign / try_sign / try_sign_with_aux and the key bytes held after the last signature are scanned for seed windows; \
+                distinct_nontrivial = distinct (type, hash, W, mode in {zeroize, drop, heap-drop, exhaust})"
         .into();
-    for m in ["zeroize_checks", "drop_checks", "exhaust_checks"] {
+    if ctx.miri {
+        rep.rule = "Miri stage: for this shard's share of (hash, W) combinations every secret-bearing type is populated by the real derivation code, zeroized (secret fields must read zero) and dropped in place under the interpreter, which checks the unsafe code inside zeroize / ArrayVecZeroize (volatile writes, fences) for undefined behaviour; the raw-memory scans are native only".into();
+        if rep.counter("zeroize_checks") == 0 && ctx.shard < 4 {
+            rep.inconclusive("the interpreter performed no zeroize check");
+        }
+        return rep;
+    }
+    if !crate::spy::available() {
+        rep.note("free() interposer not compiled into this binary: heap-drop checks skipped");
+    }
+    for m in ["zeroize_checks", "drop_checks", "exhaust_checks"].into_iter().chain(if crate::spy::available() { Some("heap-drop_checks") } else { None }) {
         if rep.counter(m) == 0 {
             rep.inconclusive(&format!("no {m} performed"));
         }
